@@ -3,6 +3,8 @@ Driver ops for C16 (model component FileFilter).
 
   ffilter <opts> <r> <lines>          -> `-` | `L1,B2,X7,…`     (FileFilter::create)
   ffapply <opts> <r> <lines> <cov>    -> <cov>                   (the loop of rewrite_paths)
+  ffselect <opts> <r> <lines> <f> <cov> -> `absent` | <cov>      (the loop, THEN `match filter_option`:
+                                         `rewriteThenFilter`; <f> = n (no --filter) | c (covered) | u (uncovered))
 
   fflines x<src>                      -> `x<piece>,x<piece>,…`   (strip_suffix LF, split LF, strip_suffix CR)
                                          followed by ` <realLines>`
@@ -15,6 +17,7 @@ Driver ops for C16 (model component FileFilter).
 <cov>   as in the `merge` op: `L1:5,2:7;B1:10;F6162:3:1`
 -/
 import GrcovModel.FileFilter
+import GrcovModel.FileFilter.Select
 import GrcovModel.Drv.Common
 import GrcovModel.Drv.Merge
 namespace Grcov.Drv
@@ -56,6 +59,20 @@ def handleFFApply : List String → String
     match parseOpts o, parseReadable r, parseLineBits ls, parseCov cov with
     | some o, some r, some ms, some c => showCov (rewrite o r ms c)
     | _, _, _, _ => "bad-op"
+  | _ => "bad-op"
+
+def parseFilterOpt (s : String) : Option (Option Bool) :=
+  if s = "n" then some none else if s = "c" then some (some true) else if s = "u" then some (some false)
+  else none
+
+def handleFFSelect : List String → String
+  | [o, r, ls, f, cov] =>
+    match parseOpts o, parseReadable r, parseLineBits ls, parseFilterOpt f, parseCov cov with
+    | some o, some r, some ms, some f, some c =>
+      match rewriteThenFilter o r ms f c with
+      | some c' => showCov c'
+      | none => "absent"
+    | _, _, _, _, _ => "bad-op"
   | _ => "bad-op"
 
 def xarg (s : String) : Option (List Nat) :=
